@@ -1,3 +1,4 @@
+mod extract;
 mod ops_graph;
 mod ops_names;
 mod ops_types;
@@ -60,6 +61,30 @@ fn main() {
                     let op = v["op"].as_str().unwrap_or("").to_string();
                     let meta = v.get("meta").cloned().unwrap_or(json!({}));
                     out.case(&op, v["in"].clone(), meta);
+                }
+            }
+        }
+        "extract" => {
+            let repo = std::env::var("VERIF_REPO").unwrap_or_else(|_| "/repo".to_string());
+            match extract::run(&repo) {
+                Ok(v) => {
+                    println!("{}", serde_json::to_string_pretty(&v).unwrap());
+                    std::process::exit(0)
+                }
+                Err(e) => {
+                    eprintln!("extract failed: {}", e);
+                    std::process::exit(3)
+                }
+            }
+        }
+        // the build-script path: BuildSystem::generate_at_build_time() reads the process's current directory
+        "buildpath" => {
+            let _ = std::panic::take_hook();
+            match tauri_typegen::BuildSystem::generate_at_build_time() {
+                Ok(()) => std::process::exit(0),
+                Err(e) => {
+                    eprintln!("Error: {}", e);
+                    std::process::exit(1);
                 }
             }
         }
